@@ -791,12 +791,16 @@ type world struct {
 	earlier  []*pb.Notification
 	cfg      config
 	farStamp int64
+	dup      uint32 // every update of this world carries this value in its (peer-settable) duplicates field
 }
 
 const tsBase = int64(10_000_000)
 
 func newWorld(rng *rand.Rand) *world {
 	w := &world{rng: rng}
+	if rng.Intn(4) == 0 {
+		w.dup = uint32(1 + rng.Intn(9))
+	}
 	// Path table: 2-5 prefix-free paths of 1-3 segments.
 	want := 2 + rng.Intn(4)
 	var idxs [][]string
@@ -897,13 +901,13 @@ func (w *world) update(target string, p lpath, ts int64) *pb.Notification {
 		k = w.rng.Intn(len(p) + 1) // k == len(p): the whole path sits in the prefix
 	}
 	return &pb.Notification{Timestamp: ts, Prefix: w.prefix(target, p, k, w.dep()),
-		Update: []*pb.Update{{Path: p.toPB(k, len(p), w.dep()), Val: w.val()}}}
+		Update: []*pb.Update{{Path: p.toPB(k, len(p), w.dep()), Val: w.val(), Duplicates: w.dup}}}
 }
 
 func (w *world) atomicUpdate(target string, p lpath, ts int64) *pb.Notification {
 	n := &pb.Notification{Timestamp: ts, Atomic: true, Prefix: w.prefix(target, p, len(p), w.dep())}
 	for i, cnt := 0, 1+w.rng.Intn(3); i < cnt; i++ {
-		n.Update = append(n.Update, &pb.Update{Path: gen.Path(w.dep(), []string{"p", "q"}[w.rng.Intn(2)]), Val: w.val()})
+		n.Update = append(n.Update, &pb.Update{Path: gen.Path(w.dep(), []string{"p", "q"}[w.rng.Intn(2)]), Val: w.val(), Duplicates: w.dup})
 	}
 	return n
 }
@@ -974,7 +978,7 @@ func (w *world) multi(target string, pool []lpath, all []lpath, ts int64, allowD
 			continue // decided below, once the updated paths are known
 		}
 		p := pool[w.rng.Intn(len(pool))]
-		n.Update = append(n.Update, &pb.Update{Path: p.toPB(0, len(p), w.dep()), Val: w.val()})
+		n.Update = append(n.Update, &pb.Update{Path: p.toPB(0, len(p), w.dep()), Val: w.val(), Duplicates: w.dup})
 		ix := p.index()
 		if w.origin != "" {
 			ix = append([]string{w.origin}, ix...)
